@@ -386,7 +386,13 @@ Record uses_tables := {
   u_base_unguarded : list string;             (* slots the base-class constructor calls into WITHOUT an
                                                  is_dummy guard (none in the shipped code) *)
   u_methods : list method_decl;
-  u_dispatched : list string }.               (* names handled by tapkee_method_handle(...) *)
+  u_dispatched : list string;                 (* names handled by tapkee_method_handle(...) *)
+  u_callback_classes : list (string * bool * list (string * bool));
+                                              (* callbacks/*.hpp: class, has `typedef int dummy` (what is_dummy<T>
+                                                 detects), member functions with "its body is a throw statement" *)
+  u_deref_files : list string;                (* files scanned for dereferences of a RandomAccessIterator *)
+  u_derefs : list (string * string * bool) }. (* every dereference site ( *it, it[i], *(it + n), it-> ): file, source
+                                                 snippet, "is an argument of a .kernel/.distance/.vector call" *)
 
 Definition needs_field (k : kind) : string :=
   match k with Kern => "needs_kernel" | Dist => "needs_distance" | Feat => "needs_features" end.
